@@ -448,7 +448,11 @@ fn get_profile_index(problem: &Problem, matrices: &[Matrix]) -> GenericResult<Ha
         .profiles
         .iter()
         .enumerate()
-        .map(|(idx, profile)| (profile.name.to_string(), idx))
+        .map(|(idx, profile)| {
+            // NOTE a matrix which names its profile is used for that profile, as the problem reader does
+            let idx = matrices.iter().position(|matrix| matrix.profile.as_ref() == Some(&profile.name)).unwrap_or(idx);
+            (profile.name.to_string(), idx)
+        })
         .collect::<HashMap<_, _>>())
 }
 
